@@ -275,7 +275,22 @@ class StmtMixin:
             return VAny(self.decls.const("fn$" + nm, INT), kind.name[4:] or None)
         return v
 
+    def litdict_object(self, st, v, kind):
+        """a dict display stored where a TypedDict-like model class is expected: a new object whose fields are the
+        display's entries (keys outside the model are not supported; missing keys stay arbitrary) -> (state, ref)"""
+        m = self.reg.models[kind.cls]
+        for key, _ in v.obj:
+            if key not in m.fields:
+                raise Unsupported(f"dict display key {key!r} is not a field of {kind.cls}")
+        st2, obj = self.alloc_obj(st, kind.cls)
+        for key, val in v.obj:
+            st2 = self.write_field(st2, obj, key, self.coerce(st2, val, m.fields[key]))
+        return st2, VRef(obj.t, kind.cls)
+
     def set_item(self, st, base, idx, v, node) -> list[Out]:
+        if isinstance(base, VDict) and isinstance(v, VPy) and v.what == "litdict" and isinstance(base.v, KRef) \
+                and base.v.cls in self.reg.models:
+            st, v = self.litdict_object(st, v, base.v)
         if isinstance(base, VDict):
             kt = self.key_term(idx, base.k)
             return [Out("ok", self.dict_set(st, base, kt, self.coerce(st, v, base.v)))]
